@@ -20,6 +20,7 @@ import (
 	"maps"
 	"slices"
 	"sort"
+	"unicode/utf16"
 
 	"seehuhn.de/go/pdf/font/charcode"
 )
@@ -74,6 +75,12 @@ func NewToUnicodeFile(csr charcode.CodeSpaceRange, data map[charcode.Code]string
 					last[len(key)] = info[i-1].x
 
 					needsList := false
+					// the compact form increments the last byte only
+					// (ISO 32000-2, 9.10.3), so it must not overflow
+					if u := utf16.Encode([]rune(data[info[start].code])); len(u) == 0 ||
+						int(u[len(u)-1]&0xff)+(i-start-1) > 255 {
+						needsList = true
+					}
 					// compare with the value readers compute for the compact
 					// form: the first value, incremented by the offset
 					for j := start + 1; j < i; j++ {
